@@ -322,6 +322,27 @@ DIRECTED = [
     ('isar: enumerator referring to an earlier enumerator of its enum', '--isar',
      {'a.xml': ISAR % '<enum name="E"><enum-member name="E_B" value="1"/><enum-member name="E_A" value="E_B + 1"/></enum><struct name="S"><member name="e" type="E"/></struct>'},
      'a.xml', 'usable'),
+    ('enumerators named like the byte orders of the C++ runtime', None,
+     {'a.prophy': 'enum Endian { little = 0, big = 1, middle = 5 };\nstruct X { Endian e; };\n'}, 'a.prophy', 'reject'),
+    ('typedef named like a <stdint.h> type', None, {'a.prophy': 'typedef u32 int8_t;\nstruct X { i8 a; u8 b; };\n'}, 'a.prophy', 'reject'),
+    ('isar: array size naming a constant called big', '--isar',
+     {'a.xml': ISAR % '<constant name="big" value="1"/><struct name="X"><member name="a" type="u64"><dimension size="big"/></member></struct>'}, 'a.xml', 'reject'),
+    ('member named like a type of its struct', None, {'a.prophy': 'struct I { u8 x; };\nstruct S { I I; };\n'}, 'a.prophy', 'reject'),
+    ('member named like the first enumerator of an enum field', None, {'a.prophy': 'enum En { A = 1, B = 2 };\nstruct S { u8 A; En e; };\n'}, 'a.prophy', 'reject'),
+    ('member named like its struct', None, {'a.prophy': 'struct S { u8 S; };\n'}, 'a.prophy', 'reject'),
+    ('isar: name starting with two underscores', '--isar',
+     {'a.xml': ISAR % '<typedef name="__T" type="u8"/><struct name="S"><member name="a" type="__T"/></struct>'}, 'a.xml', 'reject'),
+    ('isar: number with an underscore', '--isar', {'a.xml': ISAR % '<constant name="K" value="1_0"/>'}, 'a.xml', 'reject'),
+    ('isar: number in digits of another script', '--isar', {'a.xml': ISAR % '<constant name="K" value="\u0663+1"/>'}, 'a.xml', 'reject'),
+    ('isar: value holding a line break', '--isar', {'a.xml': ISAR % '<constant name="K" value="1&#10;+2"/><struct name="X"><member name="a" type="u8"><dimension size="K"/></member></struct>'},
+     'a.xml', 'reject'),
+    ('isar: array size with a double minus', '--isar', {'a.xml': ISAR % '<struct name="X"><member name="a" type="u8"><dimension size="3--1"/></member></struct>'}, 'a.xml', 'reject'),
+    ('isar: array size with a shift', '--isar', {'a.xml': ISAR % '<constant name="K" value="16"/><struct name="X"><member name="a" type="u8"><dimension size="K>>1"/></member></struct>'},
+     'a.xml', 'usable'),
+    ('definition named sys in an included file', None,
+     {'b.prophy': 'const sys = 2;\nstruct B { u8 x[sys]; };\n', 'c.prophy': 'struct C { u16 y; };\n', 'a.prophy': '#include "b.prophy"\n#include "c.prophy"\nstruct A { B b; C c; };\n'},
+     'a.prophy', 'reject'),
+    ('file with carriage returns only', None, {'a.prophy': 'struct A { u8 a; }; // first\rstruct B { A a; u16 b; };\r'}, 'a.prophy', 'usable'),
     ('isar: enumerator below -2^31', '--isar',
      {'a.xml': ISAR % '<enum name="E"><enum-member name="E_A" value="-4294967295"/></enum>'}, 'a.xml', 'reject'),
     ('isar: negative enumerator within 32 bits', '--isar',
